@@ -136,7 +136,11 @@ class Packet:
                     for item in data]
         elif isinstance(data, dict):
             if data.get('_placeholder') and 'num' in data:
-                return attachments[data['num']]
+                num = data['num']
+                if not isinstance(num, int) or isinstance(num, bool) or \
+                        num < 0 or num >= len(attachments):
+                    raise ValueError('Invalid binary attachment index')
+                return attachments[num]
             else:
                 return {key: self._reconstruct_binary_internal(value,
                                                                attachments)
